@@ -326,6 +326,9 @@ func runCoreHistory(s *coreSim, rng *vrng, p coreProfile) (info coreCaseInfo) {
 			}
 			for r := 0; r < 4 && !s.dead; r++ {
 				ps := s.k[e].PeekSize()
+				if ps < 0 && !rng.chance(25) {
+					break
+				}
 				bl := rng.pick(1, 16, 1500, 70000, 70000, 70000)
 				if ps >= 0 && rng.chance(70) {
 					bl = ps + rng.pick(0, 0, 1, 100)
@@ -362,7 +365,8 @@ func (s *coreSim) drain(limit uint32, useUpdate bool) int {
 	for s.now-start < limit && !s.dead {
 		for e := 0; e < 2 && !s.dead; e++ {
 			if useUpdate {
-				if int32(s.now-s.Check(e)) >= 0 {
+				if int32(s.now-s.k[e].Check()) >= 0 {
+					s.Check(e)
 					s.Update(e)
 				}
 			} else if int32(s.now-nextFlush[e]) >= 0 {
@@ -376,14 +380,31 @@ func (s *coreSim) drain(limit uint32, useUpdate bool) int {
 			}
 		}
 		for e := 0; e < 2 && !s.dead; e++ {
-			for s.Recv(e, 70000) >= 0 && !s.dead {
+			for s.k[e].PeekSize() >= 0 && !s.dead {
+				if s.Recv(e, 70000) < 0 {
+					break
+				}
 			}
 		}
 		if s.k[0].WaitSnd() == 0 && s.k[1].WaitSnd() == 0 && len(s.pend[0]) == 0 && len(s.pend[1]) == 0 &&
 			len(s.k[0].acklist) == 0 && len(s.k[1].acklist) == 0 {
 			return int(s.now - start)
 		}
-		s.setNow(s.now + 10)
+		// jump to the next instant at which a driver has something to do
+		next := s.now + 1000
+		for e := 0; e < 2; e++ {
+			t := nextFlush[e]
+			if useUpdate {
+				t = s.k[e].Check()
+			}
+			if int32(t-s.now) > 0 && int32(t-next) < 0 {
+				next = t
+			}
+		}
+		if int32(next-s.now) <= 0 {
+			next = s.now + 1
+		}
+		s.setNow(next)
 	}
 	return -1
 }
